@@ -929,6 +929,7 @@ type gen struct {
 	issued  []string          // every uuid this sequence has assigned so far (root, newversion, branch, tag)
 	maxV    int
 	stats   map[string]int
+	lastAdv string // the adversarial branch name drawn last (drawn again later: it is in use then)
 }
 
 func pickNode(rng *lib.Rand, ns []Node) (Node, bool) {
@@ -1117,7 +1118,11 @@ func (g *gen) branchName(sn *Snap) SX {
 	if existing != "" {
 		pool = append(pool, " "+existing, existing+" ", strings.ToUpper(existing), existing+"\t", existing)
 	}
-	return L(pool[g.rng.Intn(len(pool))])
+	if g.lastAdv != "" && g.rng.Chance(0.35) {
+		return L(g.lastAdv) // the same adversarial spelling again: in use by now
+	}
+	g.lastAdv = pool[g.rng.Intn(len(pool))]
+	return L(g.lastAdv)
 }
 
 func (g *gen) goodAssign() SX {
@@ -1805,7 +1810,15 @@ func corpus() [][]Req {
 			// ... and are reachable by reference under exactly their own spelling
 			{Kind: "note", U: Cat(T(1), L(":\tmaster\n"))}, {Kind: "commit", U: Cat(T(1), L(":\tmaster\n~0"))},
 			{Kind: "note", U: Cat(T(1), L(":master "))}, {Kind: "note", U: Cat(T(1), L(":\tmaster"))},
-			{Kind: "newversion", U: Cat(T(1), L(":\tmaster\n")), Assign: L("")}, {Kind: "commit", U: Cat(P(1, 7), L(": "))}},
+			{Kind: "newversion", U: Cat(T(1), L(":\tmaster\n")), Assign: L("")}, {Kind: "commit", U: Cat(P(1, 7), L(": "))},
+			// ... and each of them is in use from then on: a second branch request with the same spelling is
+			// refused whatever the reference syntax would make of the name ("x~1" is not "the parent of x")
+			{Kind: "branch", U: T(1), Branch: L("x~1"), Assign: L("")}, {Kind: "branch", U: T(1), Branch: L("a:b"), Assign: L("")},
+			{Kind: "branch", U: T(1), Branch: L(" master"), Assign: L("")}, {Kind: "branch", U: T(1), Branch: L("Master"), Assign: L("")},
+			{Kind: "branch", U: T(1), Branch: L("rel~2"), Assign: L("")}, {Kind: "branch", U: T(1), Branch: L("rel~2"), Assign: L("")},
+			{Kind: "branch", U: T(1), Branch: L("hotfix~rc"), Assign: L("")}, {Kind: "branch", U: T(1), Branch: L("hotfix~rc"), Assign: L("")},
+			{Kind: "branch", U: T(1), Branch: L("~1"), Assign: L("")}, {Kind: "branch", U: T(1), Branch: L("~1"), Assign: L("")},
+			{Kind: "branch", U: T(1), Branch: L("b1~0"), Assign: L("")}, {Kind: "branch", U: T(1), Branch: L("b1~0"), Assign: L("")}},
 		// one assigned uuid with upper-case hex digits offered at every entry point: the second and
 		// later uses of the same string are duplicates; its lower-case spelling is another uuid
 		{{Kind: "newrepo", Root: sp(L("ABCDEF0123456789ABCDEF0123456789"))}, {Kind: "commit", U: T(1)},
